@@ -1,5 +1,8 @@
 import Zc.Proofs.QueryGenRun
 import Zc.Props.C13
+import Zc.Props.C14
+import Zc.Model.SurviveTimers
+import Zc.GenFacts.QueryMsg
 /-! # C13 — run-level statements (companion of `Props/C13.lean`)
 
 `Props/C13.lean` speaks about one call of `askType` / `addQuestion` on a *given* history.  This file adds what the second
@@ -75,5 +78,63 @@ example :
     (askType id [] (hearQuery id [] [{ probe := true, questions := [(qx, true)], records := [new] }] 1000) 1500 false "_x._tcp.local.").1.isNone = true ∧
     (askType id [] (hearQuery id [] [{ probe := false, questions := [(qx, true)], records := [new] }] 1000) 1500 false "_x._tcp.local.").1.isSome = true := by
   decide
+
+/-! ## split over several packets with the TC bit -/
+
+section split
+open Zc.Wire Zc.Wire.Encode Zc.Survive.Comp
+
+/-- the `DNSOutgoing` a lookup hands to `async_send` (`lookupMsg`: the questions of `_generate_request_query` and their known answers
+with the query time) or the one of a browser's bucket (`bucketMsg`) — both defined in `Model/SurviveTimers.lean`, where C15 runs them
+through the encoder -/
+def C13.QueryMsg (m : Encode.Msg) : Prop := (∃ now qs, m = lookupMsg now qs) ∨ (∃ now b, m = bucketMsg now b)
+
+theorem map_some_inj {α : Type} : ∀ (l1 l2 : List α), l1.map some = l2.map some → l1 = l2
+  | [], [], _ => rfl
+  | [], _ :: _, h => by simp at h
+  | _ :: _, [], h => by simp at h
+  | a :: l1, b :: l2, h => by
+    simp only [List.map_cons, List.cons.injEq, Option.some.injEq] at h
+    rw [h.1, map_some_inj l1 l2 h.2]
+
+/-- **Split over several packets with the TC bit** — C13's clause composed with C14's packetisation (`Wire.Encode.packets`, the model of
+`DNSOutgoing.packets()`), for lookups and browsers alike.  The datagrams of a query message all decode strictly; **TC is set on every
+datagram but the last and clear on the last**; the questions and the known answers of the message are each in exactly one datagram, in
+order (nothing is dropped or repeated by the split, each known answer keeps the TTL field computed from the time it was handed over
+with); no datagram exceeds 8966 bytes and one above 1460 bytes carries a single entry.
+
+**Partial**: `WFMsg m` and `FitAll m` (C14's quantifier: names of 1–128 labels of 1–63 bytes within 255 octets, 16-bit types, TTLs below
+2³², every entry alone fits 8966 bytes) are hypotheses here.  They hold of records that came through the decoder (`C15_encodable`) and of
+types/names the application may browse (`TypesSafe`), but that is not derived in this file; and which questions share a *message*
+(the bucket grouping by estimated size) is `C13_split_partial`, with the estimate an input. -/
+theorem C13_split_on_wire_partial (m : Encode.Msg) (hq : C13.QueryMsg m) (hwf : WFMsg m) (hfit : FitAll m) (pks : List Bytes)
+    (h : packets m = .ok pks) :
+    ∃ msgs : List WMsg, pks.map Strict.decode = msgs.map some ∧ msgs ≠ [] ∧
+      (∀ w ∈ msgs.dropLast, w.flags &&& 512 = 512) ∧ (∀ w, msgs.getLast? = some w → w.flags &&& 512 = 0) ∧
+      msgs.flatMap (·.questions) = m.questions.map (EQuestion.onWire true) ∧
+      msgs.flatMap (·.answers) = m.answers.map (fun x => x.1.onWire true x.2) ∧
+      (∀ p ∈ pks, p.length ≤ 8966 ∧ ∃ w, Strict.decode p = some w ∧ (1460 < p.length → entryCount w = 1)) := by
+  have hflags : m.flags = Gen.flagsQrQuery ∧ m.multicast = true := by
+    rcases hq with ⟨now, qs, rfl⟩ | ⟨now, b, rfl⟩ <;> exact ⟨rfl, rfl⟩
+  have hquery : m.flags &&& 32768 = 0 := by rw [hflags.1]; exact GenFacts.QueryMsg.flagsQrQuery_query.1
+  have hnotc : m.flags &&& 512 = 0 := by rw [hflags.1]; exact GenFacts.QueryMsg.flagsQrQuery_query.2
+  obtain ⟨msgs, e, ne, -, htc⟩ := C14_tc_bit m hwf hfit pks h hnotc
+  obtain ⟨msgs', e', hqs, hans, -, -⟩ := C14_partition m hwf hfit pks h
+  have hsame : msgs' = msgs := by
+    have : msgs'.map some = msgs.map some := e'.symm.trans e
+    exact map_some_inj _ _ this
+  subst hsame
+  rw [hflags.2] at hqs hans
+  exact ⟨msgs', e, ne, (htc hquery).1, (htc hquery).2, hqs, hans, C14_sizes m hwf hfit pks h⟩
+
+/-- non-vacuity: C14's two-datagram query `exSplit` has the flags of a lookup query, and its packets are a TC train -/
+example : exSplit.flags = Gen.flagsQrQuery ∧
+    (packets exSplit).toOption.map (fun pks => pks.map (fun p => (Strict.decode p).map (fun w => (w.flags &&& 512, w.questions.length, w.answers.length)))) =
+      some [some (512, 1, 1), some (0, 0, 1)] := by
+  constructor
+  · decide
+  · decide +kernel
+
+end split
 
 end Zc
